@@ -1179,3 +1179,196 @@ def polarized_unit_independence(rng, ncases):
         finally:
             np.seterr(**old)
     return viol, cmp_
+
+
+# ----------------------------------------------------------------------------------------------
+# exceptional rays: every geometry class, batches mixing ordinary rays with every kind of exceptional ray
+# ----------------------------------------------------------------------------------------------
+GEOMETRY_KINDS = ['Plane', 'StandardGeometry', 'EvenAsphere', 'PolynomialGeometry', 'ChebyshevPolynomialGeometry']
+RAY_CLASSES = ['ordinary', 'vertex', 'miss', 'behind', 'behind-but-base-sphere-in-front', 'grazing', 'dead-NaN',
+               'backward']
+
+
+def make_geometry(kind, rng):
+    """(geometry, base quadric or None): strong figure terms so that the real surface and its base sphere differ by
+    more than a millimetre near the rim"""
+    from optiland.coordinate_system import CoordinateSystem
+    from optiland import geometries as Gm
+    R = rng.uniform(25, 120) * rng.choice([-1, 1])
+    k = rng.choice([0.0, 0.0, rng.uniform(-1.2, 0.4)])
+    a = rng.uniform(0.02, 0.06) * rng.choice([-1, 1])
+    if kind == 'Plane':
+        return Gm.Plane(CoordinateSystem()), None
+    base = Gm.StandardGeometry(CoordinateSystem(), R, k)
+    if kind == 'StandardGeometry':
+        return base, None
+    if kind == 'EvenAsphere':
+        return Gm.EvenAsphere(CoordinateSystem(), R, k, 1e-10, 100, [a, rng.uniform(-1, 1) * 1e-5]), base
+    if kind == 'PolynomialGeometry':
+        c = [[0.0, 0.0, a], [0.0, rng.uniform(-1, 1) * 1e-3, 0.0], [a * rng.uniform(0.5, 1.0), 0.0, 0.0]]
+        return Gm.PolynomialGeometry(CoordinateSystem(), R, k, 1e-10, 100, c), base
+    if kind == 'ChebyshevPolynomialGeometry':
+        # a r^2 on the square |x|,|y| <= 12:  a*144*(u^2+v^2) = 72 a (T2(u) + T2(v) + 2)
+        c = [[144 * a, 0.0, 72 * a], [0.0, 0.0, 0.0], [72 * a, 0.0, 0.0]]
+        return Gm.ChebyshevPolynomialGeometry(CoordinateSystem(), R, k, 1e-10, 100, c, 12.0, 12.0), base
+    raise KeyError(kind)
+
+
+def exceptional_ray(cls, rng, geom, base):
+    """[x, y, z, L, M, N] of a ray of the given class in the geometry's local frame, or None if the class does not
+    apply to this geometry"""
+    def sag(g, x, y):
+        with np.errstate(all='ignore'):
+            return float(np.ravel(g.sag(np.array([x]), np.array([y])))[0])
+    x, y = rng.uniform(-7, 7), rng.uniform(-7, 7)
+    L, M = rng.uniform(-0.3, 0.3), rng.uniform(-0.3, 0.3)
+    N = math.sqrt(1 - L * L - M * M)
+    if cls == 'ordinary':
+        return [x, y, rng.uniform(-20, -3), L, M, N]
+    if cls == 'vertex':
+        return [0.0, 0.0, -5.0, 0.0, 0.0, 1.0]
+    if cls == 'miss':
+        if base is None and type(geom).__name__ == 'Plane':
+            return [x, y, -4.0, 1.0, 0.0, 0.0]                      # parallel to the plane
+        R = abs(float(geom.radius))
+        if type(geom).__name__ == 'ChebyshevPolynomialGeometry':
+            return [11.5, 11.5, -300.0, 0.6, 0.0, 0.8]             # passes the base sphere sideways, inside the domain
+        return [1.5 * R, 0.0, -10.0, 0.0, 0.0, 1.0]
+    if cls == 'behind':
+        s = sag(geom, x, y)
+        return None if not math.isfinite(s) else [x, y, s + rng.uniform(1.0, 4.0), 0.05, -0.03, math.sqrt(1 - 0.0034)]
+    if cls == 'backward':
+        s = sag(geom, x, y)
+        return None if not math.isfinite(s) else [x, y, s - rng.uniform(1.0, 4.0), 0.05, 0.02, -math.sqrt(1 - 0.0029)]
+    if cls == 'behind-but-base-sphere-in-front':
+        if base is None:
+            return None
+        for _ in range(20):
+            x, y = rng.uniform(-8, 8), rng.uniform(-8, 8)
+            sg, sb = sag(geom, x, y), sag(base, x, y)
+            if math.isfinite(sg) and math.isfinite(sb) and abs(sg - sb) > 0.8:
+                z = 0.5 * (sg + sb)
+                d = 1.0 if sb > sg else -1.0               # travel towards the base sphere, away from the surface
+                return [x, y, z, 0.0, 0.0, d]
+        return None
+    if cls == 'grazing':
+        return [-6.0, y, -1.0, math.sqrt(1 - 0.0016), 0.0, 0.04]
+    if cls == 'dead-NaN':
+        return [float('nan'), y, -5.0, L, M, N]
+    raise KeyError(cls)
+
+
+def _rr(rows):
+    from optiland.rays import RealRays
+    a = np.array(rows, dtype=float).reshape(-1, 6)
+    n = a.shape[0]
+    return RealRays(a[:, 0].copy(), a[:, 1].copy(), a[:, 2].copy(), a[:, 3].copy(), a[:, 4].copy(), a[:, 5].copy(),
+                    np.ones(n), np.full(n, 0.55))
+
+
+def geometry_independence(rng, ncases):
+    """<Geometry>.distance and .surface_normal of every geometry class on batches that mix ordinary rays with every
+    class of exceptional ray, against the same rays one at a time: NaN pattern and values, ray by ray.
+    Returns (violations, stats, comparisons); stats[kind][ray class] = how many such rays were compared, and how
+    many of them the geometry reports as a miss when alone"""
+    viol, cmp_ = [], 0
+    stats = {k: {c: [0, 0] for c in RAY_CLASSES} for k in GEOMETRY_KINDS}
+    with warnings.catch_warnings():
+        warnings.simplefilter('ignore')
+        old = np.seterr(all='ignore')
+        try:
+            for c in range(ncases):
+                kind = GEOMETRY_KINDS[c % len(GEOMETRY_KINDS)]
+                geom, base = make_geometry(kind, rng)
+                newton = hasattr(geom, 'max_iter')
+                n_ord = rng.choice([1, 2, 4, 7])
+                n_exc = rng.choice([1, 1, 2, 5])
+                classes = ['ordinary'] * n_ord + [rng.choice(RAY_CLASSES[1:]) for _ in range(n_exc)]
+                if c % 3 == 0 and base is not None:
+                    classes.append('behind-but-base-sphere-in-front')
+                rng.shuffle(classes)
+                rows, labels = [], []
+                for cl in classes:
+                    r = exceptional_ray(cl, rng, geom, base)
+                    if r is not None:
+                        rows.append(r)
+                        labels.append(cl)
+                if len(rows) < 2:
+                    continue
+                try:
+                    tb = np.array(geom.distance(_rr(rows)), dtype=float)
+                except Exception as e:   # noqa   (a whole-batch refusal, e.g. the Chebyshev domain check)
+                    continue
+                for j, (row, cl) in enumerate(zip(rows, labels)):
+                    try:
+                        ta = float(np.ravel(geom.distance(_rr([row])))[0])
+                    except Exception:   # noqa
+                        continue
+                    cmp_ += 1
+                    stats[kind][cl][0] += 1
+                    stats[kind][cl][1] += int(not math.isfinite(ta))
+                    a, b = float(tb[j]), ta
+                    bad = None
+                    if math.isnan(a) != math.isnan(b):
+                        bad = 'NaN pattern differs'
+                    elif not math.isnan(a) and a != b:
+                        dev = abs(a - b)
+                        if not newton:
+                            bad = 'closed-form geometry: not bit-identical'
+                        elif not (dev <= slack(float(geom.tol)) * max(1.0, abs(b))) and math.isfinite(b):
+                            bad = 'beyond tolerance'
+                        elif not math.isfinite(b) and a != b:
+                            bad = 'infinite value differs'
+                    if bad:
+                        viol.append({'site': kind + '.distance', 'geometry': kind, 'ray_class': cl, 'ray': j,
+                                     'why': bad, 't_in_batch': a, 't_alone': b, 'classes_in_batch': labels,
+                                     'rays': rows, 'radius': float(getattr(geom, 'radius', float('inf'))),
+                                     'conic': float(getattr(geom, 'k', 0.0)),
+                                     'coefficients': np.array(getattr(geom, 'c', [])).tolist()})
+                        return viol, stats, cmp_
+        finally:
+            np.seterr(**old)
+    return viol, stats, cmp_
+
+
+def exceptional_specs():
+    """lenses with exceptional rays inside the beam: a strongly figured surface 0.3 mm behind the stop whose outer
+    zone lies in FRONT of the stop plane (even asphere, polynomial, Chebyshev: the aspheric analogue of lensgen's
+    'crossing-faces'), the conic crossing-faces lens itself and a plano-convex lens with TIR at the rim"""
+    import lensgen
+    inf = float('inf')
+    base = {'field_type': 'angle', 'fields': [[0.0, 0.0, 0.0, 0.0], [4.0, 0.0, 0.0, 0.0]],
+            'wavelengths': [[0.55, True]], 'telecentric': False, 'object_thickness': inf}
+    back = {'type': 'standard', 'radius': -6.0, 'thickness': 20.0, 'material': 'air'}
+    stop = {'type': 'standard', 'radius': inf, 'thickness': 0.3, 'is_stop': True, 'material': 'air'}
+    out = []
+    for epd in (6.0, 9.0):
+        out.append(dict(base, name=f'asphere-crosses-stop-epd{epd:g}', aperture=['EPD', epd], surfaces=[
+            dict(stop), {'type': 'even_asphere', 'radius': -200.0, 'thickness': 2.0, 'coefficients': [-0.06, -2e-5],
+                         'material': ['ideal', 1.62, 0.0]}, dict(back)]))
+        out.append(dict(base, name=f'polynomial-crosses-stop-epd{epd:g}', aperture=['EPD', epd], surfaces=[
+            dict(stop), {'type': 'polynomial', 'radius': -200.0, 'thickness': 2.0,
+                         'coefficients': [[0.0, 0.0, -0.06], [0.0, 0.0, 0.0], [-0.06, 0.0, 0.0]],
+                         'material': ['ideal', 1.62, 0.0]}, dict(back)]))
+        out.append(dict(base, name=f'chebyshev-crosses-stop-epd{epd:g}', aperture=['EPD', epd], surfaces=[
+            dict(stop), {'type': 'chebyshev', 'radius': -200.0, 'thickness': 2.0, 'norm_x': 10.0, 'norm_y': 10.0,
+                         'coefficients': [[-6.0, 0.0, -3.0], [0.0, 0.0, 0.0], [-3.0, 0.0, 0.0]],
+                         'material': ['ideal', 1.62, 0.0]}, dict(back)]))
+    for s in lensgen.corpus():
+        if s.get('name') in ('crossing-faces', 'tir-planoconvex'):
+            out.append(dict(s))
+    for s in out:
+        s['variant'] = 'exceptional: ' + s['name']
+    return out
+
+
+def fan_rays(rng, spec, n):
+    """meridional + sagittal fans over the whole pupil (incl. the axial ray and the rim) plus skew rays"""
+    maxf = max(abs(f[0]) for f in spec['fields'])
+    h = rng.choice([0.0, 0.0, 1.0]) if maxf else 0.0
+    pts = [(0.0, p) for p in np.linspace(-1, 1, n).tolist()] + [(p, 0.0) for p in (-1.0, -0.5, 0.5, 1.0)]
+    for _ in range(3):
+        r, t = rng.uniform(0.1, 1.0), rng.uniform(0, 2 * math.pi)
+        pts.append((r * math.cos(t), r * math.sin(t)))
+    rng.shuffle(pts)
+    return [0.0] * len(pts), [h] * len(pts), [p[0] for p in pts], [p[1] for p in pts]
